@@ -199,6 +199,14 @@ class KeyEval:
                 raise Raised(self.cur_exc, s)
             e = s.exc.func if isinstance(s.exc, ast.Call) else s.exc
             name = e.id if isinstance(e, ast.Name) else (e.attr if isinstance(e, ast.Attribute) else "?")
+            if isinstance(s.exc, ast.Call):
+                # the arguments of the exception are evaluated first: building the message may itself raise
+                for a in list(s.exc.args) + [k.value for k in s.exc.keywords]:
+                    if any(isinstance(n, ast.Call) for n in ast.walk(a)):
+                        try:
+                            self.ev(a)
+                        except Unsupported:
+                            pass  # (a message built with something this domain does not model: only its failures matter)
             raise Raised(name, s)
         elif isinstance(s, ast.Try):
             try:
@@ -323,6 +331,10 @@ class KeyEval:
             raise Unsupported("subscript %s at line %d" % (node_src(e), e.lineno))
         if isinstance(e, ast.Call):
             return self.call(e)
+        if isinstance(e, ast.NamedExpr) and isinstance(e.target, ast.Name):
+            v = self.ev(e.value)
+            self.env[e.target.id] = v
+            return v
         if isinstance(e, ast.JoinedStr):
             return self.literal("message")
         if isinstance(e, ast.Attribute):
@@ -419,6 +431,9 @@ class KeyEval:
                 if isinstance(v, AParts):
                     return ALen(len(v.tokens))
                 raise Unsupported("len of %r" % (v,))
+            if f.id in ("repr", "str", "ascii") and len(e.args) == 1:
+                self.ev(e.args[0])
+                return self.literal("message")
             if f.id in ("bool",) and len(e.args) == 1:
                 return self.truth(self.ev(e.args[0]))
             if f.id == "any" or f.id == "all":
@@ -520,6 +535,20 @@ class KeyEval:
                     if tuple(pat) == v.pat:
                         return v
                     return AStr(v.tag, tuple(pat), ("lit", max(0, v.length() - (len(v.pat) - len(pat)))), v.scen)
+                if f.attr == "decode":
+                    if v.tag != "bytes":
+                        raise Raised("AttributeError", e)
+                    codec = "utf8"
+                    if e.args:
+                        c = self.ev(e.args[0])
+                        codec = c.lit if hasattr(c, "lit") else None
+                    codec = (codec or "").lower().replace("-", "").replace("_", "")
+                    if codec in ("utf8", "ascii") and "h" in v.pat:
+                        # bytes >= 0x80 are arbitrary: some of them are not valid UTF-8 (none is ASCII)
+                        raise Raised("UnicodeDecodeError", e)
+                    if codec not in ("utf8", "ascii", "latin1", "iso88591"):
+                        raise Unsupported("codec %r at line %d" % (codec, e.lineno))
+                    return AStr("str", v.pat, ("lit", v.length()), v.scen)
                 if f.attr == "isascii" and not e.args:
                     self.flow.append(("isascii", v.tag, v.lenkind))
                     return not any(s in ("u", "h") for s in v.pat)
